@@ -39,7 +39,7 @@ func (a *{{ $structName }}) Get{{ $fieldName }}() {{ $type }} {
 	return a.{{ $fieldName }}
 }
 
-{{ if or (eq (index $type 0) '*') (eq (slice $type 0 2) "[]") (eq (slice $type 0 3) "map") }}
+{{ if or (eq (index $type 0) '*') (eq (slice $type 0 2) "[]") (and (ge (len $type) 3) (eq (slice $type 0 3) "map")) }}
 func copy{{ $structName }}{{ $fieldName }}(a {{ $type }}) {{ $type }} {
 	if a == nil {
 		return nil
@@ -105,7 +105,7 @@ func (a *{{ $structName }}) DeepCopyInto(b *{{ $structName }}) {
 	{{- else }}
 	{{- $type = FieldType $tableName $field.Column $field.Schema }}
 	{{- end }}
-	{{- if or (eq (index $type 0) '*') (eq (slice $type 0 2) "[]") (eq (slice $type 0 3) "map") }}
+	{{- if or (eq (index $type 0) '*') (eq (slice $type 0 2) "[]") (and (ge (len $type) 3) (eq (slice $type 0 3) "map")) }}
 	b.{{ $fieldName }} = copy{{ $structName }}{{ $fieldName }}(a.{{ $fieldName }})
 	{{- end }}
 	{{- end }}
@@ -138,7 +138,7 @@ func (a *{{ $structName }}) Equals(b *{{ $structName }}) bool {
 	{{- end }}
 	{{- if $i }}&&
 	{{ else }}return {{ end }}
-	{{- if or (eq (index $type 0) '*') (eq (slice $type 0 2) "[]") (eq (slice $type 0 3) "map") -}}
+	{{- if or (eq (index $type 0) '*') (eq (slice $type 0 2) "[]") (and (ge (len $type) 3) (eq (slice $type 0 3) "map")) -}}
 	equal{{ $structName }}{{ $fieldName }}(a.{{ $fieldName }}, b.{{ $fieldName }})
 	{{- else -}}
 	a.{{ $fieldName }} == b.{{ $fieldName }}
